@@ -724,4 +724,727 @@ theorem code_spec (h : List (MCall K)) (hd : ∀ c ∈ h, c.Distinct) (c : MCall
       simp only [this.1, if_true]
       cases parseMEntries es <;> rfl
 
+/-- liveness, declaratively: some `Create` of the id is not followed by a `Delete` of it
+    (history newest first) -/
+theorem liveRev_iff (hr : List (MCall K)) (id : String) :
+    liveRev hr id = true ↔
+      ∃ r1 c r2, hr = r1 ++ c :: r2 ∧ (c = .createNamed id ∨ c = .createFresh id) ∧
+        ∀ c' ∈ r1, c' ≠ .delete id := by
+  induction hr with
+  | nil => simp [liveRev]
+  | cons a hr ih =>
+    have hskip : (∀ i, a = .createNamed i → i ≠ id) → (∀ i, a = .createFresh i → i ≠ id) →
+        a ≠ .delete id →
+        ((∃ r1 c r2, a :: hr = r1 ++ c :: r2 ∧ (c = .createNamed id ∨ c = .createFresh id) ∧
+          ∀ c' ∈ r1, c' ≠ .delete id) ↔
+         ∃ r1 c r2, hr = r1 ++ c :: r2 ∧ (c = .createNamed id ∨ c = .createFresh id) ∧
+          ∀ c' ∈ r1, c' ≠ .delete id) := by
+      intro n1 n2 n3
+      constructor
+      · rintro ⟨r1, c, r2, he, hc, hn⟩
+        cases r1 with
+        | nil =>
+          simp only [List.nil_append, List.cons.injEq] at he
+          obtain ⟨rfl, _⟩ := he
+          rcases hc with rfl | rfl
+          · exact absurd rfl (n1 id rfl)
+          · exact absurd rfl (n2 id rfl)
+        | cons b r1 =>
+          simp only [List.cons_append, List.cons.injEq] at he
+          exact ⟨r1, c, r2, he.2, hc, fun c' hc' => hn c' (by simp [hc'])⟩
+      · rintro ⟨r1, c, r2, he, hc, hn⟩
+        refine ⟨a :: r1, c, r2, by rw [he]; rfl, hc, ?_⟩
+        intro c' hc'
+        rcases List.mem_cons.mp hc' with rfl | hc'
+        · exact n3
+        · exact hn c' hc'
+    have hhead : (a = .createNamed id ∨ a = .createFresh id) →
+        ∃ r1 c r2, a :: hr = r1 ++ c :: r2 ∧ (c = .createNamed id ∨ c = .createFresh id) ∧
+          ∀ c' ∈ r1, c' ≠ .delete id :=
+      fun ha => ⟨[], a, hr, rfl, ha, by simp⟩
+    cases a with
+    | createNamed i =>
+      simp only [liveRev]
+      by_cases hi : i = id
+      · subst hi; simp only [if_true, true_iff]; exact hhead (Or.inl rfl)
+      · rw [if_neg hi, ih]
+        exact (hskip (fun j hj => by cases hj; exact hi) (fun j hj => by cases hj)
+          (by simp)).symm
+    | createFresh i =>
+      simp only [liveRev]
+      by_cases hi : i = id
+      · subst hi; simp only [if_true, true_iff]; exact hhead (Or.inr rfl)
+      · rw [if_neg hi, ih]
+        exact (hskip (fun j hj => by cases hj) (fun j hj => by cases hj; exact hi)
+          (by simp)).symm
+    | update i ts es =>
+      simp only [liveRev]
+      rw [ih]
+      exact (hskip (fun j hj => by cases hj) (fun j hj => by cases hj) (by simp)).symm
+    | flush i =>
+      simp only [liveRev]
+      rw [ih]
+      exact (hskip (fun j hj => by cases hj) (fun j hj => by cases hj) (by simp)).symm
+    | delete i =>
+      simp only [liveRev]
+      by_cases hi : i = id
+      · subst hi
+        simp only [if_true, Bool.false_eq_true, false_iff]
+        rintro ⟨r1, c, r2, he, hc, hn⟩
+        cases r1 with
+        | nil =>
+          simp only [List.nil_append, List.cons.injEq] at he
+          obtain ⟨rfl, _⟩ := he
+          rcases hc with hc | hc <;> cases hc
+        | cons b r1 =>
+          simp only [List.cons_append, List.cons.injEq] at he
+          exact hn b (by simp) he.1.symm
+      · rw [if_neg hi, ih]
+        exact (hskip (fun j hj => by cases hj) (fun j hj => by cases hj)
+          (by intro h; cases h; exact hi rfl)).symm
+
+/-- **Liveness, declaratively.**  An id is live after `h` iff `h = h1 ++ c :: h2` where `c`
+    creates the id and no call of `h2` deletes it ("created, and not deleted after its last
+    creation"). -/
+theorem live_iff (h : List (MCall K)) (id : String) :
+    live h id = true ↔
+      ∃ h1 c h2, h = h1 ++ c :: h2 ∧ (c = .createNamed id ∨ c = .createFresh id) ∧
+        ∀ c' ∈ h2, c' ≠ .delete id := by
+  unfold live
+  rw [liveRev_iff]
+  constructor
+  · rintro ⟨r1, c, r2, he, hc, hn⟩
+    refine ⟨r2.reverse, c, r1.reverse, ?_, hc, fun c' hc' => hn c' (List.mem_reverse.mp hc')⟩
+    have := congrArg List.reverse he
+    simpa using this
+  · rintro ⟨h1, c, h2, he, hc, hn⟩
+    refine ⟨h2.reverse, c, h1.reverse, ?_, hc, fun c' hc' => hn c' (List.mem_reverse.mp hc')⟩
+    rw [he]; simp
+
+/-- **The timestamp never moves backwards.**  Across any single call other than `Flush id`, as
+    long as the id stays present, its timestamp does not decrease (only `Flush` — and `Delete`
+    followed by `Create` — reset it to 0). -/
+theorem ts_step_monotone (s : GState K) (c : MCall K) (id : String) (tm tm' : TM K)
+    (hl : lookup s.mats id = some tm) (hl' : lookup (stepM s c).1.mats id = some tm')
+    (hc : c ≠ .flush id) : tm.ts ≤ tm'.ts := by
+  have same : lookup (stepM s c).1.mats id = lookup s.mats id → tm.ts ≤ tm'.ts := by
+    intro h; rw [h, hl] at hl'; cases hl'; exact Nat.le_refl _
+  cases c with
+  | createNamed i =>
+    apply same
+    simp only [stepM, tmCreateNamed]
+    split
+    · rfl
+    · rename_i hn
+      refine lookup_store_ne _ _ ?_
+      rintro rfl; rw [hl] at hn; simp at hn
+  | createFresh i =>
+    apply same
+    simp only [stepM, tmCreateFresh]
+    split
+    · rfl
+    · rename_i hn
+      refine lookup_store_ne _ _ ?_
+      rintro rfl; rw [hl] at hn; simp at hn
+  | flush i =>
+    apply same
+    have hi : id ≠ i := by rintro rfl; exact hc rfl
+    simp only [stepM, tmFlush]
+    split
+    · rfl
+    · exact lookup_store_ne _ _ hi
+  | delete i =>
+    simp only [stepM, tmDelete] at hl'
+    split at hl'
+    · by_cases hi : id = i
+      · subst hi; rw [lookup_erase, if_pos rfl] at hl'; cases hl'
+      · apply same
+        simp only [stepM, tmDelete]
+        rename_i hs
+        rw [if_pos hs, lookup_erase, if_neg hi]
+    · rw [hl] at hl'; cases hl'; exact Nat.le_refl _
+  | update i ts es =>
+    simp only [stepM] at hl' ⊢
+    rw [tmUpdate_eq] at hl'
+    split at hl'
+    · rw [hl] at hl'; cases hl'; exact Nat.le_refl _
+    · rename_i tmi hi
+      split at hl'
+      · rw [hl] at hl'; cases hl'; exact Nat.le_refl _
+      · simp only at hl'
+        by_cases hid : id = i
+        · subst hid
+          rw [lookup_store_self] at hl'
+          rw [hl] at hi
+          cases hi; cases hl'
+          show tm.ts ≤ max tm.ts ts
+          omega
+        · rw [lookup_store_ne _ _ hid, hl] at hl'
+          cases hl'; exact Nat.le_refl _
+
+/-! ## 4. call histories of the TrustVector service -/
+
+inductive VCall (K : Type) where
+  | createNamed (id : String)
+  | update (id : String) (ts : Nat) (entries : List (VEntry K))
+  | flush (id : String)
+  | delete (id : String)
+
+def stepV (s : GState K) : VCall K → GState K × Code
+  | .createNamed id => tvCreateNamed s id
+  | .update id ts es => tvUpdate s id ts es
+  | .flush id => tvFlush s id
+  | .delete id => tvDelete s id
+
+def runV (s : GState K) (h : List (VCall K)) : GState K := h.foldl (fun s c => (stepV s c).1) s
+
+def codesV (s : GState K) : List (VCall K) → List Code
+  | [] => []
+  | c :: h => (stepV s c).2 :: codesV (stepV s c).1 h
+
+/-- a valid vector batch: distinct non-negative integer indices -/
+def ValidVBatch (es : List (VEntry K)) : Prop :=
+  (∀ e ∈ es, ∃ i : Nat, e.trustee = some (i : Int)) ∧ (es.map (·.trustee)).Nodup
+
+def DistinctVBatch (es : List (VEntry K)) : Prop :=
+  ∀ es', parseVEntries es = .ok es' → (es'.map (·.idx)).Nodup
+
+def VCall.Valid : VCall K → Prop
+  | .update _ _ es => ValidVBatch es
+  | _ => True
+
+def VCall.Distinct : VCall K → Prop
+  | .update _ _ es => DistinctVBatch es
+  | _ => True
+
+theorem parseV_ok_eq (es : List (VEntry K)) (es' : List (Entry K))
+    (h : parseVEntries es = .ok es') :
+    es' = es.map fun e => ⟨(e.trustee.getD 0).toNat, e.value⟩ := by
+  induction es generalizing es' with
+  | nil => simp [parseVEntries] at h; subst h; rfl
+  | cons e es ih =>
+    unfold parseVEntries at h
+    split at h
+    · cases h
+    · rename_i _ i hi
+      split at h
+      · cases h
+      · split at h
+        · cases h
+        · rename_i rest hr
+          cases h
+          rw [List.map_cons, ← ih rest hr, hi]
+          rfl
+
+theorem validVBatch_parses (es : List (VEntry K)) (h : ValidVBatch es) :
+    ∃ es', parseVEntries es = .ok es' ∧ (es'.map (·.idx)).Nodup := by
+  obtain ⟨h1, h2⟩ := h
+  have hp : ∃ es', parseVEntries es = .ok es' := by
+    clear h2
+    induction es with
+    | nil => exact ⟨[], rfl⟩
+    | cons e es ih =>
+      obtain ⟨i, hi⟩ := h1 e (by simp)
+      obtain ⟨rest, hr⟩ := ih (fun e' he' => h1 e' (by simp [he']))
+      refine ⟨⟨i, e.value⟩ :: rest, ?_⟩
+      unfold parseVEntries
+      rw [hi]
+      simp only [hr]
+      have : ¬ ((i : Int) < 0) := by simp
+      rw [if_neg this]
+      simp
+  obtain ⟨es', hc⟩ := hp
+  refine ⟨es', hc, ?_⟩
+  rw [parseV_ok_eq es es' hc, List.map_map]
+  rw [List.nodup_map_iff_inj_on (List.Nodup.of_map _ h2)]
+  have hinj := List.inj_on_of_nodup_map h2
+  intro a ha b hb hab
+  apply hinj ha hb
+  obtain ⟨i, hi⟩ := h1 a ha
+  obtain ⟨i', hi'⟩ := h1 b hb
+  simp only [Function.comp, hi, hi', Option.getD_some, Int.toNat_natCast] at hab ⊢
+  rw [hab]
+
+theorem validVBatch_distinct (es : List (VEntry K)) (h : ValidVBatch es) : DistinctVBatch es := by
+  obtain ⟨es', hc, hd⟩ := validVBatch_parses es h
+  intro es'' hc'
+  rw [hc] at hc'
+  cases hc'
+  exact hd
+
+theorem VCall.Valid.distinct {c : VCall K} (h : c.Valid) : c.Distinct := by
+  cases c <;> first | trivial | exact validVBatch_distinct _ h
+
+def vLiveRev : List (VCall K) → String → Bool
+  | [], _ => false
+  | .createNamed i :: r, id => if i = id then true else vLiveRev r id
+  | .delete i :: r, id => if i = id then false else vLiveRev r id
+  | .update _ _ _ :: r, id => vLiveRev r id
+  | .flush _ :: r, id => vLiveRev r id
+
+def vSinceRev : List (VCall K) → String → List (Nat × List (Entry K))
+  | [], _ => []
+  | .createNamed _ :: r, id => vSinceRev r id
+  | .delete i :: r, id => if i = id then [] else vSinceRev r id
+  | .flush i :: r, id => if i = id then [] else vSinceRev r id
+  | .update i ts es :: r, id =>
+    match parseVEntries es with
+    | .ok es' =>
+      if i = id ∧ vLiveRev r id = true then (ts, es') :: vSinceRev r id else vSinceRev r id
+    | .error _ => vSinceRev r id
+
+/-- `id` is live after the history `h` (oldest call first) -/
+def vLive (h : List (VCall K)) (id : String) : Bool := vLiveRev h.reverse id
+
+/-- the successful updates to `id` since its last flush / creation, oldest first -/
+def vUpdatesSince (h : List (VCall K)) (id : String) : List (Nat × List (Entry K)) :=
+  (vSinceRev h.reverse id).reverse
+
+/-- the last-writer-wins overlay of those updates on the zero vector -/
+def vContent (h : List (VCall K)) (id : String) : Nat → K :=
+  ((vUpdatesSince h id).map (·.2)).flatten.foldl assignV (fun _ => 0)
+
+/-- the largest timestamp of those updates (0 if none) -/
+def vStamp (h : List (VCall K)) (id : String) : Nat :=
+  ((vUpdatesSince h id).map (·.1)).foldl max 0
+
+theorem vSinceRev_of_not_live (hr : List (VCall K)) (id : String) (h : vLiveRev hr id = false) :
+    vSinceRev hr id = [] := by
+  induction hr with
+  | nil => rfl
+  | cons c hr ih =>
+    cases c with
+    | createNamed i =>
+      simp only [vLiveRev] at h
+      split at h
+      · cases h
+      · exact ih h
+    | delete i =>
+      simp only [vLiveRev] at h
+      simp only [vSinceRev]
+      split
+      · rfl
+      · rename_i hne; rw [if_neg hne] at h; exact ih h
+    | flush i =>
+      simp only [vLiveRev] at h
+      simp only [vSinceRev]
+      split
+      · rfl
+      · exact ih h
+    | update i ts es =>
+      simp only [vLiveRev] at h
+      simp only [vSinceRev]
+      split
+      · rw [if_neg (by rw [h]; simp)]; exact ih h
+      · exact ih h
+
+def VInvAt (s : GState K) (hr : List (VCall K)) (id : String) : Prop :=
+  match lookup s.vecs id with
+  | none => vLiveRev hr id = false
+  | some tv => vLiveRev hr id = true ∧ GoodV tv ∧
+      tv.ts = ((vSinceRev hr id).reverse.map (·.1)).foldl max 0 ∧
+      denE tv.v.entries =
+        ((vSinceRev hr id).reverse.map (·.2)).flatten.foldl assignV (fun _ => 0)
+
+theorem VInvAt.congr {s s' : GState K} {hr hr' : List (VCall K)} {id : String}
+    (h1 : lookup s'.vecs id = lookup s.vecs id) (h2 : vLiveRev hr' id = vLiveRev hr id)
+    (h3 : vSinceRev hr' id = vSinceRev hr id) (h : VInvAt s hr id) : VInvAt s' hr' id := by
+  unfold VInvAt at h ⊢
+  rw [h1, h2, h3]; exact h
+
+theorem VInvAt.fresh {s' : GState K} {hr' : List (VCall K)} {id : String}
+    (h1 : lookup s'.vecs id = some ⟨⟨0, []⟩, 0⟩) (h2 : vLiveRev hr' id = true)
+    (h3 : vSinceRev hr' id = []) : VInvAt s' hr' id := by
+  unfold VInvAt
+  rw [h1, h2, h3]
+  exact ⟨rfl, goodV_empty 0, rfl, rfl⟩
+
+theorem VInvAt.live_of_some {s : GState K} {hr : List (VCall K)} {id : String} {tv : TV K}
+    (h : VInvAt s hr id) (hl : lookup s.vecs id = some tv) : vLiveRev hr id = true := by
+  unfold VInvAt at h; rw [hl] at h; exact h.1
+
+theorem VInvAt.not_live_of_none {s : GState K} {hr : List (VCall K)} {id : String}
+    (h : VInvAt s hr id) (hl : lookup s.vecs id = none) : vLiveRev hr id = false := by
+  unfold VInvAt at h; rw [hl] at h; exact h
+
+theorem vinv_step (s : GState K) (hr : List (VCall K)) (c : VCall K) (hd : c.Distinct)
+    (h : ∀ id, VInvAt s hr id) (id : String) : VInvAt (stepV s c).1 (c :: hr) id := by
+  cases c with
+  | createNamed i =>
+    simp only [stepV, tvCreateNamed]
+    cases hl : lookup s.vecs i with
+    | some tv =>
+      simp only [Option.isSome_some, if_true]
+      by_cases hi : i = id
+      · subst hi
+        have hlive := (h i).live_of_some hl
+        exact (h i).congr rfl (by simp [vLiveRev, hlive]) (by simp [vSinceRev])
+      · exact (h id).congr rfl (by simp [vLiveRev, hi]) (by simp [vSinceRev])
+    | none =>
+      simp only [Option.isSome_none, Bool.false_eq_true, if_false]
+      by_cases hi : i = id
+      · subst hi
+        have hdead := vSinceRev_of_not_live hr i ((h i).not_live_of_none hl)
+        exact VInvAt.fresh (lookup_store_self _ _ _) (by simp [vLiveRev])
+          (by simp [vSinceRev, hdead])
+      · exact (h id).congr (lookup_store_ne _ _ (fun h' => hi h'.symm))
+          (by simp [vLiveRev, hi]) (by simp [vSinceRev])
+  | flush i =>
+    simp only [stepV, tvFlush]
+    cases hl : lookup s.vecs i with
+    | none =>
+      simp only
+      refine (h id).congr rfl (by simp [vLiveRev]) ?_
+      simp only [vSinceRev]
+      split
+      · rename_i hi; subst hi
+        exact (vSinceRev_of_not_live hr i ((h i).not_live_of_none hl)).symm
+      · rfl
+    | some tv =>
+      simp only
+      by_cases hi : i = id
+      · subst hi
+        exact VInvAt.fresh (lookup_store_self _ _ _)
+          (by simp [vLiveRev, (h i).live_of_some hl]) (by simp [vSinceRev])
+      · exact (h id).congr (lookup_store_ne _ _ (fun h' => hi h'.symm))
+          (by simp [vLiveRev]) (by simp [vSinceRev, hi])
+  | delete i =>
+    simp only [stepV, tvDelete]
+    cases hl : lookup s.vecs i with
+    | none =>
+      simp only [Option.isSome_none, Bool.false_eq_true, if_false]
+      by_cases hi : i = id
+      · subst hi
+        have hnl := (h i).not_live_of_none hl
+        exact (h i).congr rfl (by simp [vLiveRev, hnl])
+          (by simp [vSinceRev, vSinceRev_of_not_live hr i hnl])
+      · exact (h id).congr rfl (by simp [vLiveRev, hi]) (by simp [vSinceRev, hi])
+    | some tv =>
+      simp only [Option.isSome_some, if_true]
+      by_cases hi : i = id
+      · subst hi
+        unfold VInvAt
+        rw [lookup_erase, if_pos rfl]
+        simp [vLiveRev]
+      · refine (h id).congr ?_ (by simp [vLiveRev, hi]) (by simp [vSinceRev, hi])
+        rw [lookup_erase, if_neg (fun h' => hi h'.symm)]
+  | update i ts es =>
+    simp only [stepV]
+    rw [tvUpdate_eq]
+    cases hl : lookup s.vecs i with
+    | none =>
+      simp only
+      refine (h id).congr rfl (by simp [vLiveRev]) ?_
+      simp only [vSinceRev]
+      split
+      · rw [if_neg]
+        rintro ⟨hi, hlv⟩
+        subst hi
+        rw [(h i).not_live_of_none hl] at hlv
+        cases hlv
+      · rfl
+    | some tv =>
+      simp only
+      cases hp : parseVEntries es with
+      | error e =>
+        simp only
+        exact (h id).congr rfl (by simp [vLiveRev]) (by simp [vSinceRev, hp])
+      | ok es' =>
+        simp only
+        by_cases hi : i = id
+        · subst hi
+          have hI := h i
+          unfold VInvAt at hI ⊢
+          rw [hl] at hI
+          obtain ⟨h1, h2, h3, h4⟩ := hI
+          rw [lookup_store_self]
+          obtain ⟨g1, g2⟩ := updV_good h2 ts (hd es' hp)
+          refine ⟨by simpa [vLiveRev] using h1, g1, ?_, ?_⟩
+          · simp only [vSinceRev, hp, h1, and_self, if_true, List.reverse_cons, List.map_append,
+              List.map_cons, List.map_nil, List.foldl_append, List.foldl_cons, List.foldl_nil]
+            rw [← h3]; rfl
+          · simp only [vSinceRev, hp, h1, and_self, if_true, List.reverse_cons, List.map_append,
+              List.map_cons, List.map_nil, List.flatten_append, List.flatten_cons,
+              List.flatten_nil, List.append_nil, List.foldl_append]
+            rw [← h4]; exact g2
+        · refine (h id).congr (lookup_store_ne _ _ (fun h' => hi h'.symm)) (by simp [vLiveRev]) ?_
+          simp [vSinceRev, hp, hi]
+
+/-- the store invariant for vectors -/
+theorem tv_run_invariant (h : List (VCall K)) (hd : ∀ c ∈ h, c.Distinct) (id : String) :
+    match lookup (runV {} h).vecs id with
+    | none => vLive h id = false
+    | some tv => vLive h id = true ∧ GoodV tv ∧ tv.ts = vStamp h id ∧
+        denE tv.v.entries = vContent h id := by
+  have key : ∀ id, VInvAt (runV ({} : GState K) h) h.reverse id := by
+    induction h using List.reverseRecOn with
+    | nil => intro id; exact (rfl : vLiveRev ([] : List (VCall K)) id = false)
+    | append_singleton h c ih =>
+      intro id
+      have hrun : runV ({} : GState K) (h ++ [c]) = (stepV (runV {} h) c).1 := by
+        unfold runV; rw [List.foldl_append]; rfl
+      rw [hrun, List.reverse_append, List.reverse_singleton, List.singleton_append]
+      exact vinv_step _ _ c (hd c (by simp))
+        (ih (fun c' hc' => hd c' (by simp [hc']))) id
+  exact key id
+
+/-- **Get (vectors).**  NotFound iff the id is not live; otherwise exactly the non-zero entries
+    of the last-writer-wins overlay of the successful updates since the last flush / creation, in
+    strictly increasing index order. -/
+theorem tv_get_spec (h : List (VCall K)) (hd : ∀ c ∈ h, c.Distinct) (id : String) :
+    (tvGet (runV {} h) id = none ↔ vLive h id = false) ∧
+    ∀ ts es, tvGet (runV {} h) id = some (ts, es) →
+      vLive h id = true ∧
+      (∀ i x, (i, x) ∈ es ↔ x ≠ 0 ∧ x = vContent h id i) ∧
+      es.Pairwise (fun a b => a.1 < b.1) := by
+  have hI := tv_run_invariant h hd id
+  rw [tvGet_eq]
+  cases hl : lookup (runV ({} : GState K) h).vecs id with
+  | none =>
+    rw [hl] at hI
+    simp only at hI
+    exact ⟨⟨fun _ => hI, fun _ => rfl⟩, fun ts es he => by cases he⟩
+  | some tv =>
+    rw [hl] at hI
+    obtain ⟨h1, h2, h3, h4⟩ := hI
+    refine ⟨⟨fun he => (by cases he), fun he => (by rw [h1] at he; cases he)⟩, ?_⟩
+    intro ts es he
+    simp only [Option.map_some, Option.some.injEq, Prod.mk.injEq] at he
+    obtain ⟨_, rfl⟩ := he
+    refine ⟨h1, fun i x => ?_, vEntries_pairwise h2.1⟩
+    rw [mem_vEntries h2.1, h4]
+
+/-- **Timestamp (vectors).** -/
+theorem tv_ts_spec (h : List (VCall K)) (hd : ∀ c ∈ h, c.Distinct) (id : String) (ts : Nat)
+    (es : List (Nat × K)) (hg : tvGet (runV {} h) id = some (ts, es)) :
+    ts = vStamp h id := by
+  have hI := tv_run_invariant h hd id
+  rw [tvGet_eq] at hg
+  cases hl : lookup (runV ({} : GState K) h).vecs id with
+  | none => rw [hl] at hg; cases hg
+  | some tv =>
+    rw [hl] at hI hg
+    simp only [Option.map_some, Option.some.injEq, Prod.mk.injEq] at hg
+    rw [← hg.1]; exact hI.2.2.1
+
+/-- every stored vector is well-formed -/
+theorem tv_stored_good (h : List (VCall K)) (hd : ∀ c ∈ h, c.Distinct) (id : String) (tv : TV K)
+    (hl : lookup (runV {} h).vecs id = some tv) : WF tv.v.dim tv.v.entries := by
+  have hI := tv_run_invariant h hd id
+  rw [hl] at hI
+  exact hI.2.1
+
+def expectedCodeV (h : List (VCall K)) : VCall K → Code
+  | .createNamed i => if vLive h i then .unknown else .ok
+  | .update i _ es =>
+    if vLive h i then (match parseVEntries es with | .ok _ => .ok | .error c => c) else .notFound
+  | .flush i => if vLive h i then .ok else .notFound
+  | .delete i => if vLive h i then .ok else .notFound
+
+theorem tv_code_spec (h : List (VCall K)) (hd : ∀ c ∈ h, c.Distinct) (c : VCall K) :
+    (stepV (runV {} h) c).2 = expectedCodeV h c := by
+  have hI := fun id => tv_run_invariant h hd id
+  cases c with
+  | createNamed i =>
+    have := hI i
+    simp only [stepV, tvCreateNamed, expectedCodeV]
+    cases hl : lookup (runV ({} : GState K) h).vecs i with
+    | none => rw [hl] at this; simp [this]
+    | some tv => rw [hl] at this; simp [this.1]
+  | flush i =>
+    have := hI i
+    simp only [stepV, tvFlush, expectedCodeV]
+    cases hl : lookup (runV ({} : GState K) h).vecs i with
+    | none => rw [hl] at this; simp [this]
+    | some tv => rw [hl] at this; simp [this.1]
+  | delete i =>
+    have := hI i
+    simp only [stepV, tvDelete, expectedCodeV]
+    cases hl : lookup (runV ({} : GState K) h).vecs i with
+    | none => rw [hl] at this; simp [this]
+    | some tv => rw [hl] at this; simp [this.1]
+  | update i ts es =>
+    have := hI i
+    simp only [stepV, expectedCodeV]
+    rw [tvUpdate_eq]
+    cases hl : lookup (runV ({} : GState K) h).vecs i with
+    | none => rw [hl] at this; simp [this]
+    | some tv =>
+      rw [hl] at this
+      simp only [this.1, if_true]
+      cases parseVEntries es <;> rfl
+
+/-! ## 4b. interleaved histories of both services -/
+
+/-- a call of either service -/
+abbrev Call (K : Type) := MCall K ⊕ VCall K
+
+def stepAll (s : GState K) : Call K → GState K × Code
+  | .inl c => stepM s c
+  | .inr c => stepV s c
+
+def runAll (s : GState K) (h : List (Call K)) : GState K :=
+  h.foldl (fun s c => (stepAll s c).1) s
+
+/-- the TrustMatrix calls of an interleaved history, in order -/
+def mcalls (h : List (Call K)) : List (MCall K) := h.filterMap Sum.getLeft?
+/-- the TrustVector calls of an interleaved history, in order -/
+def vcalls (h : List (Call K)) : List (VCall K) := h.filterMap Sum.getRight?
+
+/-- TrustMatrix calls do not touch the vectors, and their effect on the matrices does not depend
+    on the vectors -/
+theorem stepM_frame (s s1 : GState K) (c : MCall K) (hm : s.mats = s1.mats) :
+    (stepM s c).1.vecs = s.vecs ∧ (stepM s c).1.mats = (stepM s1 c).1.mats ∧
+      (stepM s c).2 = (stepM s1 c).2 := by
+  obtain ⟨m, v⟩ := s
+  obtain ⟨m1, v1⟩ := s1
+  simp only at hm
+  subst hm
+  cases c with
+  | createNamed i => simp only [stepM, tmCreateNamed]; split <;> exact ⟨rfl, rfl, rfl⟩
+  | createFresh i => simp only [stepM, tmCreateFresh]; split <;> exact ⟨rfl, rfl, rfl⟩
+  | flush i => simp only [stepM, tmFlush]; split <;> exact ⟨rfl, rfl, rfl⟩
+  | delete i => simp only [stepM, tmDelete]; split <;> exact ⟨rfl, rfl, rfl⟩
+  | update i ts es =>
+    simp only [stepM, tmUpdate_eq]
+    cases lookup m i with
+    | none => exact ⟨rfl, rfl, rfl⟩
+    | some tm => cases parseMEntries es <;> exact ⟨rfl, rfl, rfl⟩
+
+theorem stepV_frame (s s1 : GState K) (c : VCall K) (hv : s.vecs = s1.vecs) :
+    (stepV s c).1.mats = s.mats ∧ (stepV s c).1.vecs = (stepV s1 c).1.vecs ∧
+      (stepV s c).2 = (stepV s1 c).2 := by
+  obtain ⟨m, v⟩ := s
+  obtain ⟨m1, v1⟩ := s1
+  simp only at hv
+  subst hv
+  cases c with
+  | createNamed i => simp only [stepV, tvCreateNamed]; split <;> exact ⟨rfl, rfl, rfl⟩
+  | flush i => simp only [stepV, tvFlush]; split <;> exact ⟨rfl, rfl, rfl⟩
+  | delete i => simp only [stepV, tvDelete]; split <;> exact ⟨rfl, rfl, rfl⟩
+  | update i ts es =>
+    simp only [stepV, tvUpdate_eq]
+    cases lookup v i with
+    | none => exact ⟨rfl, rfl, rfl⟩
+    | some tv => cases parseVEntries es <;> exact ⟨rfl, rfl, rfl⟩
+
+theorem runAll_split (h : List (Call K)) (s s1 s2 : GState K) (hm : s.mats = s1.mats)
+    (hv : s.vecs = s2.vecs) :
+    (runAll s h).mats = (run s1 (mcalls h)).mats ∧ (runAll s h).vecs = (runV s2 (vcalls h)).vecs := by
+  induction h generalizing s s1 s2 with
+  | nil => exact ⟨hm, hv⟩
+  | cons c h ih =>
+    cases c with
+    | inl c =>
+      obtain ⟨f1, f2, _⟩ := stepM_frame s s1 c hm
+      have := ih (stepM s c).1 (stepM s1 c).1 s2 f2 (f1.trans hv)
+      simpa [runAll, run, runV, mcalls, vcalls, stepAll, List.filterMap_cons] using this
+    | inr c =>
+      obtain ⟨f1, f2, _⟩ := stepV_frame s s2 c hv
+      have := ih (stepV s c).1 s1 (stepV s2 c).1 (f1.trans hm) f2
+      simpa [runAll, run, runV, mcalls, vcalls, stepAll, List.filterMap_cons] using this
+
+/-- **Interleaving.**  In any interleaved history of calls to the two services, `Get` on a matrix
+    (vector) id returns what it returns after the TrustMatrix (TrustVector) calls alone — so
+    `get_spec`, `ts_spec`, `tv_get_spec`, `tv_ts_spec` apply to `mcalls h` / `vcalls h`. -/
+theorem get_interleaved (h : List (Call K)) (id : String) :
+    tmGet (runAll {} h) id = tmGet (run {} (mcalls h)) id ∧
+    tvGet (runAll {} h) id = tvGet (runV {} (vcalls h)) id := by
+  obtain ⟨h1, h2⟩ := runAll_split h {} {} {} rfl rfl
+  exact ⟨by rw [tmGet_eq, tmGet_eq, h1], by rw [tvGet_eq, tvGet_eq, h2]⟩
+
+/-! ## 5. non-vacuity at `K := ℚ` -/
+
+section examples
+
+-- `ℚ` carries two `Scalar` instances; the examples use the proof instance.
+attribute [local instance 10000] fieldScalar
+
+/-- create "a"; two updates (the second one stale: ts 5 after ts 10, erasing cell (0,1) with an
+    explicit zero and adding (1,1)); an update of the unknown id "b" -/
+private def exH : List (MCall ℚ) :=
+  [.createNamed "a",
+   .update "a" 10 [⟨some 0, some 1, 3⟩, ⟨some 1, some 0, 2⟩],
+   .update "a" 5 [⟨some 0, some 1, 0⟩, ⟨some 1, some 1, 7⟩],
+   .update "b" 99 [⟨some 0, some 0, 1⟩]]
+
+example : tmGet (run {} exH) "a" = some (10, [(1, 0, 2), (1, 1, 7)]) := by decide +kernel
+example : tmGet (run {} exH) "b" = none := by decide +kernel
+example : codes {} exH = [.ok, .ok, .ok, .notFound] := by decide +kernel
+example : stamp exH "a" = 10 ∧ live exH "a" = true ∧ live exH "b" = false := by decide +kernel
+example : content exH "a" 0 1 = 0 ∧ content exH "a" 1 1 = 7 ∧ content exH "a" 1 0 = 2 := by
+  decide +kernel
+
+/-- the history satisfies the hypotheses of the theorems -/
+private theorem exH_valid : ∀ c ∈ exH, c.Valid := by
+  intro c hc
+  simp only [exH, List.mem_cons, List.not_mem_nil, or_false] at hc
+  rcases hc with rfl | rfl | rfl | rfl
+  · trivial
+  · refine ⟨?_, by decide⟩
+    intro e he
+    simp only [List.mem_cons, List.not_mem_nil, or_false] at he
+    rcases he with rfl | rfl
+    · exact ⟨0, 1, rfl, rfl⟩
+    · exact ⟨1, 0, rfl, rfl⟩
+  · refine ⟨?_, by decide⟩
+    intro e he
+    simp only [List.mem_cons, List.not_mem_nil, or_false] at he
+    rcases he with rfl | rfl
+    · exact ⟨0, 1, rfl, rfl⟩
+    · exact ⟨1, 1, rfl, rfl⟩
+  · refine ⟨?_, by decide⟩
+    intro e he
+    simp only [List.mem_cons, List.not_mem_nil, or_false] at he
+    rcases he with rfl
+    exact ⟨0, 0, rfl, rfl⟩
+
+example := get_spec_valid exH exH_valid "a"
+example := ts_spec exH (fun c hc => (exH_valid c hc).distinct) "a" 10 [(1, 0, 2), (1, 1, 7)]
+  (by decide +kernel)
+example := code_spec exH (fun c hc => (exH_valid c hc).distinct) (.flush "zz")
+
+/-- timestamps: `update ts=10; update ts=5` leaves 10; a flush resets to 0 -/
+example : (tmGet (run {} ([.createNamed "a", .update "a" 10 [], .update "a" 5 []] :
+    List (MCall ℚ))) "a").map (·.1) = some 10 := by decide +kernel
+example : (tmGet (run {} ([.createNamed "a", .update "a" 10 [], .flush "a", .update "a" 5 []] :
+    List (MCall ℚ))) "a").map (·.1) = some 5 := by decide +kernel
+/-- a huge timestamp survives the wire encoding and the store -/
+example : (tmGet (run {} ([.createNamed "a",
+    .update "a" (qwords2Nat (nat2Qwords (2 ^ 200 + 1))) []] : List (MCall ℚ))) "a").map (·.1)
+    = some (2 ^ 200 + 1) := by decide +kernel
+/-- a duplicate `Create` is refused; `Delete` then `Create` starts from scratch; non-integer and
+    negative indices are refused with `Unknown` / `InvalidArgument` -/
+example : codes {} ([.createNamed "a", .createNamed "a", .update "a" 3 [⟨some 0, some 0, 1⟩],
+    .delete "a", .delete "a", .createFresh "a", .update "a" 1 [⟨none, some 0, 1⟩],
+    .update "a" 1 [⟨some 0, some (-1), 1⟩]] : List (MCall ℚ))
+    = [.ok, .unknown, .ok, .ok, .notFound, .ok, .unknown, .invalidArgument] := by decide +kernel
+example : tmGet (run {} ([.createNamed "a", .update "a" 3 [⟨some 0, some 0, 1⟩],
+    .delete "a", .createFresh "a"] : List (MCall ℚ))) "a" = some (0, []) := by decide +kernel
+
+/-- vectors -/
+private def exHV : List (VCall ℚ) :=
+  [.createNamed "v", .update "v" 10 [⟨some 0, 1/2⟩, ⟨some 2, 1/2⟩], .update "v" 5 [⟨some 2, 0⟩],
+   .flush "w", .update "v" 7 [⟨some (-1), 1⟩]]
+
+example : tvGet (runV {} exHV) "v" = some (10, [(0, 1/2)]) := by decide +kernel
+example : codesV {} exHV = [.ok, .ok, .ok, .notFound, .invalidArgument] := by decide +kernel
+example : vStamp exHV "v" = 10 ∧ vContent exHV "v" 2 = 0 ∧ vContent exHV "v" 0 = 1/2 := by
+  decide +kernel
+
+private theorem exHV_distinct : ∀ c ∈ exHV, c.Distinct := by
+  intro c hc
+  simp only [exHV, List.mem_cons, List.not_mem_nil, or_false] at hc
+  rcases hc with rfl | rfl | rfl | rfl | rfl
+  · trivial
+  · intro es' h; rw [parseV_ok_eq _ _ h]; decide
+  · intro es' h; rw [parseV_ok_eq _ _ h]; decide
+  · trivial
+  · intro es' h; rw [parseV_ok_eq _ _ h]; decide
+
+example := tv_get_spec exHV exHV_distinct "v"
+example := tv_ts_spec exHV exHV_distinct "v" 10 [(0, 1/2)] (by decide +kernel)
+
+end examples
+
 end EtVerif.C16
